@@ -66,6 +66,8 @@ pub enum Op {
     Handoff,
     /// `filter(decay_keep) -> map(decay)`: harness composite used in deferral cycles
     Decay,
+    /// `batch()`: entry of a root-level `loop { }` block (the node is inside, its input outside)
+    Batch,
     // ---- unary, stateful
     Enumerate(P),
     Unique(P),
@@ -179,6 +181,8 @@ pub struct Program {
     pub checks: Vec<Check>,
     /// Feeder depth of the deep-feeder target (Deep mode), for evidence.
     pub depth: usize,
+    /// Per node: does it sit inside the (single) root-level `loop { }` block? Empty = no loop.
+    pub in_loop: Vec<bool>,
 }
 
 impl Op {
@@ -233,6 +237,7 @@ impl Op {
             Op::Identity => "identity",
             Op::Handoff => "handoff",
             Op::Decay => "filter",
+            Op::Batch => "batch",
             Op::Enumerate(_) => "enumerate",
             Op::Unique(_) => "unique",
             Op::Persist => "persist",
@@ -342,6 +347,12 @@ impl Op {
 }
 
 impl Program {
+    pub fn node_in_loop(&self, i: usize) -> bool {
+        self.in_loop.get(i).copied().unwrap_or(false)
+    }
+    pub fn has_loop(&self) -> bool {
+        self.in_loop.iter().any(|b| *b)
+    }
     /// Evaluation order within a tick: every node after its same-tick producers. Edges *into*
     /// deferral nodes are cross-tick and ignored.
     pub fn topo(&self) -> Vec<usize> {
@@ -394,6 +405,7 @@ impl Program {
                 | Op::Inspect(_)
                 | Op::Identity
                 | Op::Decay
+                | Op::Batch
                 | Op::Enumerate(_)
                 | Op::Unique(_)
                 | Op::Scan(..)
